@@ -186,7 +186,7 @@ def sim_env(env, entropy=None, plan=None, order=None, trace=None, clock=None,
     return e
 
 
-TIMEOUT_S = 60
+TIMEOUT_S = int(os.environ.get("VERIF_TIMEOUT_S", "30"))
 
 
 class Result:
@@ -214,7 +214,7 @@ class Result:
 
 
 def run_proc(argv, cwd, env, stdin=None, timeout=TIMEOUT_S, stdout_to=None,
-             aslr=False):
+             aslr=False, stdout_kind="pipe"):
     """Run one process; never raises on failure of the child."""
     out_f = subprocess.PIPE
     fh = None
@@ -222,6 +222,14 @@ def run_proc(argv, cwd, env, stdin=None, timeout=TIMEOUT_S, stdout_to=None,
         fh = open(stdout_to, "wb")
         out_f = fh
     preexec = None
+    if stdout_kind == "devfull":
+        fh = open("/dev/full", "wb")
+        out_f = fh
+    elif stdout_kind == "closed":
+        out_f = None
+
+        def preexec():
+            os.close(1)
     if aslr:
         def preexec():
             libc = ctypes.CDLL(None)
@@ -251,8 +259,9 @@ def run_proc(argv, cwd, env, stdin=None, timeout=TIMEOUT_S, stdout_to=None,
         timed_out = True
     if fh:
         fh.close()
-        with open(stdout_to, "rb") as f:
-            out = f.read()
+        if stdout_to:
+            with open(stdout_to, "rb") as f:
+                out = f.read()
     rc = p.returncode
     sig = -rc if rc is not None and rc < 0 else 0
     return Result(rc if rc is not None and rc >= 0 else -1, sig, out or b"", err or b"", timed_out)
@@ -276,31 +285,49 @@ def _worker_entry(args):
     return func(item)
 
 
+def _executor(jobs):
+    import concurrent.futures
+    import multiprocessing
+    return concurrent.futures.ProcessPoolExecutor(max_workers=jobs, mp_context=multiprocessing.get_context("fork"))
+
+
 def parallel_map(func, items, jobs=None):
     """Deterministic parallel map: results come back in item order whatever
-    the worker count."""
-    import multiprocessing
-    jobs = jobs or verif_jobs()
-    items = list(items)
-    if jobs <= 1 or len(items) <= 1:
-        return [func(i) for i in items]
-    ctx = multiprocessing.get_context("fork")
-    with ctx.Pool(jobs) as pool:
-        return pool.map(_worker_entry, [(func, i) for i in items], chunksize=1)
+    the worker count. A worker that dies is a harness error, never a hang."""
+    return list(parallel_imap(func, items, jobs))
 
 
 def parallel_imap(func, items, jobs=None, chunksize=1):
     """Ordered lazy parallel map (for budget-capped thorough runs)."""
-    import multiprocessing
+    import concurrent.futures
     jobs = jobs or verif_jobs()
     if jobs <= 1:
         for i in items:
             yield func(i)
         return
-    ctx = multiprocessing.get_context("fork")
-    with ctx.Pool(jobs) as pool:
-        for r in pool.imap(_worker_entry, ((func, i) for i in items), chunksize=chunksize):
+    ex = _executor(jobs)
+    try:
+        for r in ex.map(_worker_entry, ((func, i) for i in items), chunksize=chunksize):
             yield r
+    except concurrent.futures.process.BrokenProcessPool as e:
+        raise HarnessError("a simulation worker process died (%s)" % e)
+    finally:
+        ex.shutdown(wait=False, cancel_futures=True)
+
+
+# minimisation runs on a wall-clock budget (reported in the replay record);
+# the verdict never depends on it
+_min_deadline = [None]
+
+
+def set_min_budget(seconds=None):
+    if seconds is None:
+        seconds = float(os.environ.get("VERIF_MIN_BUDGET_S", "90"))
+    _min_deadline[0] = time.time() + seconds
+
+
+def min_expired():
+    return _min_deadline[0] is not None and time.time() > _min_deadline[0]
 
 
 # ------------------------------------------------ findings and evidence --
